@@ -29,10 +29,13 @@ func init() {
 	mon.Register(&mon.Property{
 		ID:    "C07",
 		Level: "exploration",
-		Rule: "G1: well-formed Accept / Accept-Encoding values from the RFC 7231 grammar (1-6 ranges over a 6-type vocabulary incl. */* and type/*, parameters before and after q, parameter names ending in 'q', " +
+		Rule: "G1: well-formed Accept / Accept-Encoding values from the RFC 7231 grammar (1-6 ranges over a 10-type vocabulary incl. */* and type/*, parameters before and after q, parameter names ending in 'q', " +
 			"quoted strings, q-values with 0-80 fractional digits on a 1e-5 grid (same number in several spellings; distinct numbers differ by >= 5e-6), optional SP/HTAB, 1-3 field lines) x offer lists " +
 			"(permutations, duplicates, offers with parameters, empty) x default present/absent; G2: arbitrary bytes and byte-level mutations of G1. Every case runs the real ParseAccept and Negotiate* functions; " +
-			"a share goes through the API handler (RoutesHandler over an untyped API built from generated Swagger 2.0, offers read from the observed MatchedRoute.Produces). " +
+			"a share goes through the API handler (RoutesHandler over an untyped API built from generated Swagger 2.0; GET without body and POST with an admitted JSON body; the reflective operation handler and the call sequence of a generated server: RouteInfo, BindValidRequest, Respond). " +
+			"The offers of an operation are computed from its DECLARATION (produces of the operation, else of the spec, plus the API default); the observed MatchedRoute.Produces must be that set and only lends its order. " +
+			"The vocabulary holds types whose TYPE is a proper prefix of another (text / texture / textile), 'type/*' ranges on truncated and extended type names (tex/*, t/*, textx/*) and exact ranges one byte short or long (text/plai, text/plainx). " +
+			"The library is handed copies of the offers and of the field lines; the copies must come back unmodified. " +
 			"Oracle: strict grammar parser + exact decimals + the statement's selection rule; outside the grammar only totality and result-is-an-offer. " +
 			"non-trivial = judged header with >= 2 acceptable ranges that match >= 2 distinct offers; distinct by (function, header lines, offers)",
 		Assumptions: []string{
@@ -43,7 +46,8 @@ func init() {
 			"header.ParseAccept is judged on what the selection rule needs: one spec per range in order with the range's type, Q == 0 exactly for quality 0, and Q ordered/equal as the exact decimals are",
 			"a choice mismatch of Negotiate*/the handler on a header whose ParseAccept result already failed its oracle is attributed to that parse violation and counted, not reported under a second signature",
 			"NegotiateContentEncoding: judged for result in offers/identity/\"\", maximum q, q=0, and earlier offer among offers tied on (q, specificity); the specificity tie-break and the no-header result are not stated for encodings and not judged",
-			"API handler: offers are the observed MatchedRoute.Produces (declared produces plus the API default); 406 <=> nothing in that list is acceptable; Content-Type is judged against the statement's offer order (produces without the default, default last)",
+			"API handler: the offers are the declared produces list (operation level, else spec level) plus the API default; MatchedRoute.Produces must hold exactly that set (its order is a map order fixed at router build and is the only thing read from it); 406 <=> nothing in the declared set is acceptable; Content-Type is judged against the statement's offer order (produces without the default, default last)",
+			"the caller's offers slice and header lines must not be modified by Negotiate*/Parse* (the result is judged against copies taken before the call, so a result that is only a member of a rewritten list is 'not an offer')",
 			"ParseList, ParseValueAndParams, ParseAccept2, ParseTime: totality only",
 		},
 		MinNontrivial: 1500,
@@ -63,6 +67,8 @@ type Case struct {
 	API       *APIDesc `json:"api,omitempty"`
 	Op        int      `json:"op,omitempty"`
 	WantOrder []string `json:"observed_produces_order,omitempty"`
+	Flow      string   `json:"flow,omitempty"` // "" the reflective (untyped) operation handler; "generated": RouteInfo, BindValidRequest, Respond as a generated server's operation does
+	Body      bool     `json:"body,omitempty"` // POST with an admitted JSON body (needs api.post_twin) instead of a body-less GET
 }
 
 func (c *Case) lines() []string {
@@ -102,6 +108,8 @@ type verdict struct {
 	nontrivial bool
 	decidedBy  string
 	want       accept.Pick
+	modified   string // what of the caller's the library modified: "offers" / "header"
+	modDetail  string
 }
 
 func contains(l []string, s string) bool {
@@ -113,12 +121,38 @@ func contains(l []string, s string) bool {
 	return false
 }
 
+// mkHeader hands the library its own copy of the field lines: the caller's slice stays the snapshot
+// everything is judged against.
 func mkHeader(key string, lines []string) http.Header {
 	h := http.Header{}
 	if lines != nil {
-		h[key] = lines
+		h[key] = copyList(lines)
 	}
 	return h
+}
+
+func copyList(l []string) []string {
+	if l == nil {
+		return nil
+	}
+	out := make([]string, len(l))
+	copy(out, l)
+	return out
+}
+
+// headerModified compares the header the library was given with the snapshot of its lines.
+func headerModified(h http.Header, key string, lines []string) string {
+	want := 0
+	if lines != nil {
+		want = 1
+	}
+	switch {
+	case len(h) != want:
+		return fmt.Sprintf("the header map handed in with %d field(s) has %d afterwards: %q", want, len(h), h)
+	case lines != nil && !sameList(h[key], lines):
+		return fmt.Sprintf("field lines %q handed in, %q afterwards", lines, h[key])
+	}
+	return ""
 }
 
 // nontrivial: >= 2 acceptable ranges each matching some offer, and >= 2 distinct offers matched.
@@ -191,9 +225,18 @@ func evalType(lines []string, offers []string, def string) (v verdict) {
 		return v
 	}
 	req := &http.Request{Method: http.MethodGet, Header: h}
-	if pv, _ := mon.Catch(func() { v.got = middleware.NegotiateContentType(req, offers, def) }); pv != nil {
+	given := copyList(offers) // the library's copy; offers stays untouched
+	if pv, _ := mon.Catch(func() { v.got = middleware.NegotiateContentType(req, given, def) }); pv != nil {
 		v.panicIn, v.panicVal = "NegotiateContentType", fmt.Sprint(pv)
 		return v
+	}
+	switch {
+	case !sameList(given, offers):
+		v.modified, v.modDetail = "offers", fmt.Sprintf("NegotiateContentType(Accept=%q, offers, default=%q): offers %q handed in, %q afterwards", lines, def, offers, given)
+	default:
+		if d := headerModified(h, "Accept", lines); d != "" {
+			v.modified, v.modDetail = "header", "ParseAccept/NegotiateContentType: "+d
+		}
 	}
 	v.member = v.got == def || contains(offers, v.got)
 	p := accept.ParseStrict(lines, true)
@@ -264,9 +307,18 @@ func evalEnc(lines []string, offers []string) (v verdict) {
 		return v
 	}
 	req := &http.Request{Method: http.MethodGet, Header: h}
-	if pv, _ := mon.Catch(func() { v.got = middleware.NegotiateContentEncoding(req, offers) }); pv != nil {
+	given := copyList(offers)
+	if pv, _ := mon.Catch(func() { v.got = middleware.NegotiateContentEncoding(req, given) }); pv != nil {
 		v.panicIn, v.panicVal = "NegotiateContentEncoding", fmt.Sprint(pv)
 		return v
+	}
+	switch {
+	case !sameList(given, offers):
+		v.modified, v.modDetail = "offers", fmt.Sprintf("NegotiateContentEncoding(Accept-Encoding=%q, offers): offers %q handed in, %q afterwards", lines, offers, given)
+	default:
+		if d := headerModified(h, "Accept-Encoding", lines); d != "" {
+			v.modified, v.modDetail = "header", "ParseAccept/NegotiateContentEncoding: "+d
+		}
 	}
 	v.member = v.got == "" || v.got == "identity" || contains(offers, v.got)
 	p := accept.ParseStrict(lines, false)
@@ -365,6 +417,9 @@ func runFunc(m *mon.M, c *Case) {
 		m.Violate("panic/"+v.panicIn, fmt.Sprintf("%s panicked on %q: %s", v.panicIn, lines, v.panicVal), c)
 		return
 	}
+	if v.modified != "" {
+		m.Violate("caller-"+v.modified+"-modified/"+fn, v.modDetail, c)
+	}
 	if !v.member {
 		m.Violate("not-an-offer/"+fn, fmt.Sprintf("%s(%q, offers=%q, default=%q) = %q which is neither an offer nor the default", fn, lines, offers, def, v.got), c)
 	}
@@ -443,18 +498,27 @@ func runTotal(m *mon.M, c *Case) {
 			if pv, st := mon.Catch(cl.f); pv != nil {
 				m.Violate("panic/"+cl.name, fmt.Sprintf("%s panicked on %s=%q: %v\n%s", cl.name, key, lines, pv, st), c)
 			}
+			if d := headerModified(h, key, lines); d != "" {
+				m.Violate("caller-header-modified/"+cl.name, cl.name+": "+d, c)
+				h = mkHeader(key, lines)
+			}
 		}
 	}
 	var got string
 	req := &http.Request{Method: http.MethodGet, Header: mkHeader("Accept", lines)}
-	if pv, st := mon.Catch(func() { got = middleware.NegotiateContentType(req, offers, def) }); pv != nil {
+	given := copyList(offers)
+	if pv, st := mon.Catch(func() { got = middleware.NegotiateContentType(req, given, def) }); pv != nil {
 		m.Violate("panic/NegotiateContentType", fmt.Sprintf("panic on %q: %v\n%s", lines, pv, st), c)
 	} else if got != def && !contains(offers, got) {
 		m.Violate("not-an-offer/NegotiateContentType", fmt.Sprintf("NegotiateContentType(%q, offers=%q, default=%q) = %q", lines, offers, def, got), c)
 	}
-	cod := accept.Codings[:3]
+	if !sameList(given, offers) {
+		m.Violate("caller-offers-modified/NegotiateContentType", fmt.Sprintf("NegotiateContentType(%q, offers, default=%q): offers %q handed in, %q afterwards", lines, def, offers, given), c)
+	}
+	cod := []string{"gzip", "deflate", "br"}
+	codGiven := copyList(cod)
 	req2 := &http.Request{Method: http.MethodGet, Header: mkHeader("Accept-Encoding", lines)}
-	if pv, st := mon.Catch(func() { got = middleware.NegotiateContentEncoding(req2, cod) }); pv != nil {
+	if pv, st := mon.Catch(func() { got = middleware.NegotiateContentEncoding(req2, codGiven) }); pv != nil {
 		m.Violate("panic/NegotiateContentEncoding", fmt.Sprintf("panic on %q: %v\n%s", lines, pv, st), c)
 	} else if got != "" && got != "identity" && !contains(cod, got) {
 		m.Violate("not-an-offer/NegotiateContentEncoding", fmt.Sprintf("NegotiateContentEncoding(%q, offers=%q) = %q", lines, cod, got), c)
@@ -476,11 +540,22 @@ type APIDesc struct {
 	DefaultProduces string   `json:"default_produces"` // "" = WithoutJSONDefaults
 	Global          []string `json:"global_produces,omitempty"`
 	Ops             []OpDesc `json:"ops"`
+	// Post: every /op<i> also has a POST operation with the same produces list, taking a body parameter
+	// and consuming application/json
+	Post bool `json:"post_twin,omitempty"`
 }
 
 // OpDesc is one GET operation at /op<i>.
 type OpDesc struct {
 	Produces []string `json:"produces,omitempty"`
+}
+
+// declared is the produces list the description declares for operation op (its own, else the spec's).
+func (d *APIDesc) declared(op int) []string {
+	if len(d.Ops[op].Produces) > 0 {
+		return d.Ops[op].Produces
+	}
+	return d.Global
 }
 
 func (d *APIDesc) swagger() []byte {
@@ -493,7 +568,22 @@ func (d *APIDesc) swagger() []byte {
 		if len(op.Produces) > 0 {
 			o["produces"] = op.Produces
 		}
-		paths[fmt.Sprintf("/op%d", i)] = map[string]interface{}{"get": o}
+		item := map[string]interface{}{"get": o}
+		if d.Post {
+			po := map[string]interface{}{
+				"operationId": fmt.Sprintf("post%d", i),
+				"consumes":    []string{"application/json"},
+				"parameters": []interface{}{map[string]interface{}{
+					"name": "body", "in": "body", "schema": map[string]interface{}{"type": "object"},
+				}},
+				"responses": map[string]interface{}{"200": map[string]interface{}{"description": "ok"}},
+			}
+			if len(op.Produces) > 0 {
+				po["produces"] = op.Produces
+			}
+			item["post"] = po
+		}
+		paths[fmt.Sprintf("/op%d", i)] = item
 	}
 	doc := map[string]interface{}{
 		"swagger":  "2.0",
@@ -519,6 +609,44 @@ type built struct {
 	doc  *loads.Document
 	api  *untyped.API
 	obs  *observation
+	cur  *Case
+}
+
+func (b *built) handle() (interface{}, error) {
+	b.obs.ran = true
+	return middleware.ResponderFunc(func(w http.ResponseWriter, p runtime.Producer) {
+		w.WriteHeader(http.StatusOK)
+		_ = p.Produce(w, "ok")
+	}), nil
+}
+
+// bodyBinder is the parameter binding of a generated operation with a body parameter: it decodes the
+// body with the consumer BindValidRequest selected.
+type bodyBinder struct{}
+
+func (bodyBinder) BindRequest(r *http.Request, route *middleware.MatchedRoute) error {
+	if runtime.HasBody(r) && route.Consumer != nil {
+		defer r.Body.Close()
+		var v interface{}
+		if err := route.Consumer.Consume(r.Body, &v); err != nil && err != io.EOF {
+			return err
+		}
+	}
+	return nil
+}
+
+// generated serves the request the way the ServeHTTP method of a go-swagger generated operation does.
+func (b *built) generated(ctx *middleware.Context, rw http.ResponseWriter, r *http.Request) {
+	route, rCtx, _ := ctx.RouteInfo(r)
+	if rCtx != nil {
+		*r = *rCtx
+	}
+	if err := ctx.BindValidRequest(r, route, bodyBinder{}); err != nil {
+		ctx.Respond(rw, r, route.Produces, route, err)
+		return
+	}
+	res, _ := b.handle()
+	ctx.Respond(rw, r, route.Produces, route, res)
 }
 
 func tagProducer(tag string) runtime.Producer {
@@ -556,16 +684,16 @@ func build(d *APIDesc) (*built, error) {
 	for t := range types {
 		api.RegisterProducer(t, tagProducer(t))
 	}
+	if d.Post {
+		api.RegisterConsumer("application/json", runtime.JSONConsumer())
+	}
 	for i := range d.Ops {
 		// The handler answers with a Responder: status and Content-Type are what C07 looks at, and the
 		// plain-value branch of Context.Respond (producer lookup) is C08's subject.
-		api.RegisterOperation("get", fmt.Sprintf("/op%d", i), runtime.OperationHandlerFunc(func(interface{}) (interface{}, error) {
-			b.obs.ran = true
-			return middleware.ResponderFunc(func(w http.ResponseWriter, p runtime.Producer) {
-				w.WriteHeader(http.StatusOK)
-				_ = p.Produce(w, "ok")
-			}), nil
-		}))
+		api.RegisterOperation("get", fmt.Sprintf("/op%d", i), runtime.OperationHandlerFunc(func(interface{}) (interface{}, error) { return b.handle() }))
+		if d.Post {
+			api.RegisterOperation("post", fmt.Sprintf("/op%d", i), runtime.OperationHandlerFunc(func(interface{}) (interface{}, error) { return b.handle() }))
+		}
 	}
 	b.api = api
 	return b, nil
@@ -579,6 +707,10 @@ func (b *built) handler() (http.Handler, *middleware.Context) {
 			if mr := middleware.MatchedRouteFrom(r); mr != nil {
 				b.obs.routed = true
 				b.obs.produces = append([]string(nil), mr.Produces...)
+				if b.cur != nil && b.cur.Flow == "generated" {
+					b.generated(ctx, w, r)
+					return
+				}
 			}
 			next.ServeHTTP(w, r)
 		})
@@ -606,32 +738,38 @@ func sameList(a, b []string) bool {
 	return true
 }
 
-// respondOffers is the statement's offer list: the produces list without the API default, default last.
-func respondOffers(produces []string, def string) []string {
-	out := make([]string, 0, len(produces)+1)
-	for _, p := range produces {
-		if p != def {
-			out = append(out, p)
-		}
-	}
-	if def != "" {
-		out = append(out, def)
-	}
-	return out
-}
-
 func runHandlerOn(m *mon.M, c *Case, b *built, h http.Handler) {
 	lines := c.lines()
 	m.Eval(1)
 	*b.obs = observation{}
+	b.cur = c
+	body := c.Body && b.desc.Post
 	req := httptest.NewRequest(http.MethodGet, fmt.Sprintf("/op%d", c.Op), nil)
-	if lines != nil {
-		req.Header["Accept"] = lines
+	if body {
+		req = httptest.NewRequest(http.MethodPost, fmt.Sprintf("/op%d", c.Op), strings.NewReader(`{"a":1}`))
+		req.Header.Set("Content-Type", "application/json")
 	}
+	if lines != nil {
+		req.Header["Accept"] = copyList(lines) // the library gets its own copy
+	}
+	// the input feature class of the flow (part of every signature of a flow other than the plain one)
+	shape := ""
+	switch {
+	case c.Flow == "generated" && body:
+		shape = "/generated-flow-with-body"
+	case c.Flow == "generated":
+		shape = "/generated-flow"
+	case body:
+		shape = "/with-body"
+	}
+	if shape != "" {
+		m.Class("handler-shape:" + shape[1:])
+	}
+	declared := b.desc.declared(c.Op)
 	rec := httptest.NewRecorder()
 	minimal := func() *Case {
-		d := &APIDesc{DefaultProduces: b.desc.DefaultProduces, Global: b.desc.Global, Ops: []OpDesc{b.desc.Ops[c.Op]}}
-		return &Case{Kind: "handler", Absent: c.Absent, Lines: c.Lines, API: d, Op: 0, WantOrder: b.obs.produces}
+		d := &APIDesc{DefaultProduces: b.desc.DefaultProduces, Global: b.desc.Global, Ops: []OpDesc{b.desc.Ops[c.Op]}, Post: b.desc.Post && body}
+		return &Case{Kind: "handler", Absent: c.Absent, Lines: c.Lines, API: d, Op: 0, WantOrder: b.obs.produces, Flow: c.Flow, Body: body}
 	}
 	if pv, st := mon.Catch(func() { h.ServeHTTP(rec, req) }); pv != nil {
 		// a panic is never attributed away; when ParseAccept already fails its oracle on this header the
@@ -644,7 +782,7 @@ func runHandlerOn(m *mon.M, c *Case, b *built, h http.Handler) {
 				sig = "handler/panic-after-" + md + "/" + accept.Features(lines, p.Ranges)[0]
 			}
 		}
-		m.Violate(sig, fmt.Sprintf("API handler panicked on Accept=%q (produces=%q, default=%q): %v\n%s", lines, b.obs.produces, b.desc.DefaultProduces, pv, st), minimal())
+		m.Violate(sig+shape, fmt.Sprintf("API handler panicked on Accept=%q (produces=%q, default=%q): %v\n%s", lines, b.obs.produces, b.desc.DefaultProduces, pv, st), minimal())
 		return
 	}
 	obs := *b.obs
@@ -657,9 +795,17 @@ func runHandlerOn(m *mon.M, c *Case, b *built, h http.Handler) {
 	}
 	m.SetAdd("observed-produces-orders", strings.Join(obs.produces, " | "))
 	if obs.ran != (status == http.StatusOK) || (!obs.ran && status != http.StatusNotAcceptable) {
-		m.Violate("handler/status-and-handler-run-disagree", fmt.Sprintf("Accept=%q produces=%q: status %d, handler ran=%v", lines, obs.produces, status, obs.ran), minimal())
+		m.Violate("handler/status-and-handler-run-disagree"+shape, fmt.Sprintf("Accept=%q produces=%q: status %d, handler ran=%v", lines, obs.produces, status, obs.ran), minimal())
 		return
 	}
+	// the operation's offers are what it DECLARES plus the API default; the router's list must be that set
+	if f, det := accept.OfferSetDiff(obs.produces, declared, b.desc.DefaultProduces); f != "" {
+		m.Violate("handler/offers-differ-from-declaration/"+f, "MatchedRoute.Produces: "+det, minimal())
+	}
+	if !sameList(req.Header["Accept"], lines) {
+		m.Violate("handler/caller-header-modified", fmt.Sprintf("Accept lines %q sent, %q in the request afterwards", lines, req.Header["Accept"]), minimal())
+	}
+	offers := accept.StatementOffers(obs.produces, declared, b.desc.DefaultProduces)
 	p := accept.ParseStrict(lines, true)
 	if !p.Judged {
 		m.Class("handler:not-judged/" + p.Why)
@@ -668,13 +814,17 @@ func runHandlerOn(m *mon.M, c *Case, b *built, h http.Handler) {
 	pFailed := false
 	if p.Present {
 		var specs []header.AcceptSpec
-		mon.Catch(func() { specs = header.ParseAccept(req.Header, "Accept") })
+		mon.Catch(func() { specs = header.ParseAccept(mkHeader("Accept", lines), "Accept") })
 		md, _ := checkParse(specs, p.Ranges)
 		pFailed = md != ""
 	}
-	gate := accept.Select(p.Present, p.Ranges, obs.produces, true)
-	if p.Present && nontrivial(p.Ranges, obs.produces, true) {
-		m.NT("handler|" + strings.Join(lines, "\x00") + "|" + strings.Join(obs.produces, "\x00") + "|" + b.desc.DefaultProduces)
+	if !accept.CleanOffers(offers, true) {
+		m.Class("handler:not-judged/offers-outside-grammar")
+		return
+	}
+	gate := accept.Select(p.Present, p.Ranges, offers, true)
+	if p.Present && nontrivial(p.Ranges, offers, true) {
+		m.NT("handler|" + strings.Join(lines, "\x00") + "|" + strings.Join(offers, "\x00") + "|" + b.desc.DefaultProduces + shape)
 	}
 	mode, detail := "", ""
 	if gate.None {
@@ -685,17 +835,17 @@ func runHandlerOn(m *mon.M, c *Case, b *built, h http.Handler) {
 		case status != http.StatusNotAcceptable:
 			mode = "no-406-although-nothing-acceptable"
 		}
-		detail = fmt.Sprintf("Accept=%q admits none of %q: expected 406 without running the handler; got status %d, handler ran=%v", lines, obs.produces, status, obs.ran)
+		detail = fmt.Sprintf("Accept=%q admits none of the declared types %q (default %q): expected 406 without running the handler; got status %d, handler ran=%v, Content-Type %q", lines, declared, b.desc.DefaultProduces, status, obs.ran, ct)
 	} else {
 		m.Class("handler:expect-200")
-		want := accept.Select(p.Present, p.Ranges, respondOffers(obs.produces, b.desc.DefaultProduces), true)
+		want := gate // the statement's list: declared produces without the default (order as observed), default last
 		switch {
 		case status == http.StatusNotAcceptable || !obs.ran:
 			mode = "spurious-406"
-			detail = fmt.Sprintf("Accept=%q admits %q of %q: got status %d, handler ran=%v", lines, gate.Offer, obs.produces, status, obs.ran)
+			detail = fmt.Sprintf("Accept=%q admits %q of the declared types %q (default %q): got status %d, handler ran=%v (MatchedRoute.Produces %q)", lines, gate.Offer, declared, b.desc.DefaultProduces, status, obs.ran, obs.produces)
 		case ct != want.Offer:
 			mode = "wrong-content-type"
-			detail = fmt.Sprintf("Accept=%q, produces=%q, default=%q: Content-Type %q, statement gives %q", lines, obs.produces, b.desc.DefaultProduces, ct, want.Offer)
+			detail = fmt.Sprintf("Accept=%q, declared produces=%q (observed order %q), default=%q: Content-Type %q, statement gives %q", lines, declared, obs.produces, b.desc.DefaultProduces, ct, want.Offer)
 		}
 	}
 	if mode == "" {
@@ -705,7 +855,7 @@ func runHandlerOn(m *mon.M, c *Case, b *built, h http.Handler) {
 		m.Class("handler:mismatch-attributed-to-parse-violation")
 		return
 	}
-	m.Violate("handler/"+mode, detail, minimal())
+	m.Violate("handler/"+mode+shape, detail, minimal())
 }
 
 func runHandlerReplay(m *mon.M, c *Case) {
@@ -765,6 +915,7 @@ func genAPI(r *rand.Rand) *APIDesc {
 		}
 		d.Ops = append(d.Ops, op)
 	}
+	d.Post = r.Intn(2) == 0
 	return d
 }
 
@@ -864,6 +1015,10 @@ func run(m *mon.M) {
 			}
 			lines, absent, fl := genLines(r3, types)
 			c := &Case{Kind: "handler", Absent: absent, Lines: mon.QS(lines), API: d, Op: op}
+			if r3.Intn(3) == 0 {
+				c.Flow = "generated"
+			}
+			c.Body = d.Post && r3.Intn(2) == 0
 			m.Class("handler-flavour:" + fl)
 			m.Begin(c)
 			runHandlerOn(m, c, b, hs[q%len(hs)])
